@@ -55,7 +55,7 @@ def run_unit(ctx: Ctx, qualname: str) -> None:
     is_init = local.endswith(".__init__")
     for p in names:
         if p == "self" and is_method and "self" not in fc.params:
-            cls_qual = qualname.rsplit(".", 1)[0]
+            cls_qual = (qualname[: -len(".setter")] if qualname.endswith(".setter") else qualname).rsplit(".", 1)[0]
             if is_init:
                 from .source import class_of
 
